@@ -22,7 +22,8 @@ open Glom.C20
     lookup) and `_MAX_CACHE ≥ 1`; `get_handler` likewise (an unregistered type raises before
     anything is stored); the *only* writes to module- or class-level state inside any
     function of glom's core, matching, mutation, grouping, reduction and streaming modules
-    are `Path._CACHE` and `Path._STAR_WARNED`; `glom()` derives the scope of a call from
+    are `Path._CACHE` and `Path._STAR_WARNED`, and no function has a mutable default argument
+    (an object shared by all calls); `glom()` derives the scope of a call from
     `_DEFAULT_SCOPE.new_child` with a dict literal whose containers are fresh (`[]`,
     `ScopeVars({}, {})`), `_glom` gives every evaluation step a fresh child dict with a
     fresh `CHILD_ERRORS` list; the registry methods on the evaluation path write only
